@@ -12,6 +12,8 @@ CLAIMED = {
          "Completeness and priority (no match missed, first parse) are judged on every uncut run by the ordered reference semantics in the driver (Spec/RegexSem.lean) but are not yet theorems; the hook counter in regex.c tells which runs the depth limit cut."),
  "C11": ("Lean 4 theorems (Props/C11.lean, Lemmas/C11*.lean): parse_bounds (every compiled tree has 0 <= mn <= NREPS, mx <= NREPS, mx < 0 or mn <= mx), emit_length, emitLen_le_count and program_fits (for every byte string the compiled program fits the allocation), jmpend_bounded, emit_wf / regcomp_wf / no_edge_trap (the VM is total by well-founded recursion and never takes a checked edge on compiled programs), atomMatch_range / offsets_in_range / regcomp_offsets (0 <= so <= eo <= length, marks in range) for every subject, flags included. Tied by all metacharacter strings <= 3/4 symbols, malformed constructs and random byte strings under ASan.",
          "offsets_on_boundaries (valid UTF-8) is judged on every case by the driver, not a theorem; recorded finding: a non-UTF-8 literal on the fast path. Reads past the terminator are modelled as trap and compared with ASan."),
+ "C12": ("Lean 4 theorems (Props/C12.lean, Lemmas/C12*.lean): stop_covers_specials (on the regenerated strings: every byte the engine treats specially is in rstr_simple's stop set), simple_has_no_operator, fast_groups_unset, literal_find_spec (the fast path returns the least admissible offset), simple_program_shape / simple_compiles (a simple pattern compiles to a straight-line program), straightline_run, and fast_equals_engine (for every literal and newline-terminated line that are UTF-8 encodings of code points, every anchor combination, every flag combination incl. ignore-case: rstr_find and the general engine return identical results). Tied by the exhaustive anchor x literal x line x flag grid, the classifier on all patterns <= 3 symbols and random patterns.",
+         "Hypotheses of fast_equals_engine, each excluded point decided on the real code: non-empty literal (^ and ^$ are covered by the grid), literal valid UTF-8 without newline (recorded finding for a non-UTF-8 literal under C11), depth limit >= 1, >= 6 marks."),
  "C16": ("Lean 4 theorems (Props/C16.lean) over the model of uc.c for all code points and all strings: len/code/put agree with the arithmetic encoder, slen/chr/off/next/prev/sub/chop agree with code-point segmentation and round-trip. Model tied to uc.c (and regex.c's private copies) by an exhaustive run over all 1,114,111 code points plus exhaustive small strings.",
          "The clause 'edits keep text valid UTF-8' is carried by C08/C14."),
  "C17": ("Lean 4 theorems (Props/C17.lean): bisection equals membership on the regenerated sorted tables (width class of every code point), ren_cwid equals the reference cell width and is >= 1, the fast and the reordered layout are gap-free tilings for every permutation, offset->column->offset round-trips. Tied to ren.c/uc.c by all code points (exhaustive) and generated lines over all offsets/columns/options.",
